@@ -240,10 +240,21 @@ def build_call(case, carrier="nd_f8", tcarrier="dt64ns", span_kind="list"):
             kw["range_max"] = float(case["range_max"])
         return qartod.location_test, kw
     if fn == "climatology":
-        return qartod.climatology_test, {
-            "config": clim_config(case["members"], span_kind, case.get("tkind", "iso")),
-            "inp": D("inp"), "tinp": T(), "zinp": D("z"),
-        }
+        cfg = clim_config(case["members"], span_kind, case.get("tkind", "iso"))
+        if case.get("clim_object"):
+            # a ClimatologyConfig object that has already been used on other data (same length, other times)
+            obj = qartod.ClimatologyConfig()
+            for d in cfg:
+                obj.add(**d)
+            n = len(case["inp"])
+            try:
+                qartod.climatology_test(obj, np.arange(n, dtype="float64"),
+                                        (np.arange(n, dtype="int64") * 86400 * 41 + 1400000000).astype("datetime64[s]").astype("datetime64[ns]"),
+                                        np.zeros(n))
+            except Exception:  # noqa: BLE001
+                pass
+            cfg = obj
+        return qartod.climatology_test, {"config": cfg, "inp": D("inp"), "tinp": T(), "zinp": D("z")}
     if fn == "spike":
         kw = {"inp": D("inp"), "method": case["method"]}
         if case.get("sus") is not None or case.get("sus_explicit_none"):
@@ -331,7 +342,7 @@ def wire_case(case):
     """Logical case -> wire call (drops harness-only keys)."""
     from proto import enc
 
-    c = {k: v for k, v in case.items() if k not in ("as_time", "bbox_default", "tkind", "sus_explicit_none", "note")}
+    c = {k: v for k, v in case.items() if k not in ("as_time", "bbox_default", "tkind", "sus_explicit_none", "note", "clim_object", "t_ns")}
     if c["fn"] in ("location", "speed") and "hops" not in c:
         c["hops"] = geodesic_hops(case["lon"], case["lat"])
     return enc(c)
